@@ -30,8 +30,8 @@ pub fn specs() -> Vec<PropertySpec> {
             id: "C18",
             level: "fault_enumeration",
             plans: vec![
-                Plan { engine: "e2", variant: "c18", quick: 500, thorough: 30_000, asan: false },
-                Plan { engine: "e2", variant: "c18f", quick: 400, thorough: 20_000, asan: false },
+                Plan { engine: "e2", variant: "c18", quick: 1_500, thorough: 30_000, asan: false },
+                Plan { engine: "e2", variant: "c18f", quick: 1_200, thorough: 20_000, asan: false },
             ],
             rule: "seeded projects (schema split over 1-3 files, 1-5 operation files with imports, random layout/config/options) that are valid or carry 1-3 labelled rule violations; each is run as check / generate / check+generate in the three output formats on a fresh tree (c18), and as check+generate under one injected I/O fault or crash at a sampled (quick) or every (thorough sweeps) intercepted system call of the fault-free trace (c18f). distinct = hash of project shape, config text, injected violations and fired faults; non-trivial = a violation was injected or a fault fired",
             assumptions: vec![
@@ -45,7 +45,7 @@ pub fn specs() -> Vec<PropertySpec> {
         PropertySpec {
             id: "C17",
             level: "exploration",
-            plans: vec![Plan { engine: "e2", variant: "c17", quick: 300, thorough: 20_000, asan: false }],
+            plans: vec![Plan { engine: "e2", variant: "c17", quick: 800, thorough: 20_000, asan: false }],
             rule: "seeded rich projects (>=6 types, >=3 directives and scalar mappings, >=2 implementers per interface); check+generate under 4 hash seeds x 2 directory-enumeration orders on fresh trees, a re-run on the generated tree, and a crash (or torn write + crash) at sampled system calls followed by a clean run; everything compared byte for byte",
             assumptions: vec!["std's SipHash keys come from one getrandom call per process (verified by the self-test)", "directory order is permuted inside readdir64"],
             real_components: vec!["nitrogql-cli binary"],
@@ -55,7 +55,7 @@ pub fn specs() -> Vec<PropertySpec> {
             id: "C08",
             level: "fault_enumeration",
             plans: vec![
-                Plan { engine: "e2", variant: "c08", quick: 250, thorough: 15_000, asan: false },
+                Plan { engine: "e2", variant: "c08", quick: 700, thorough: 15_000, asan: false },
                 Plan { engine: "e1", variant: "c08", quick: 15_000, thorough: 800_000, asan: false },
                 Plan { engine: "e1", variant: "c08", quick: 3_000, thorough: 100_000, asan: true },
             ],
@@ -68,8 +68,8 @@ pub fn specs() -> Vec<PropertySpec> {
             id: "C06",
             level: "exploration",
             plans: vec![
-                Plan { engine: "e2", variant: "arte", quick: 1_200, thorough: 80_000, asan: false },
-                Plan { engine: "e2", variant: "c17", quick: 150, thorough: 5_000, asan: false },
+                Plan { engine: "e2", variant: "arte", quick: 3_000, thorough: 80_000, asan: false },
+                Plan { engine: "e2", variant: "c17", quick: 300, thorough: 5_000, asan: false },
             ],
             rule: "every .map listed by a successful simulated generate (all three modes, randomised layouts and options, rich schemas split over 1-3 files with extensions, 1-6 operation files with imports; also after re-runs and crash-re-runs in the c17 class) is decoded with an independent VLQ reader and judged segment by segment against the generated text and the GraphQL inputs on the simulated file system",
             assumptions: vec!["independent VLQ decoder, lexer and header scanner (indep.rs)", "columns are UTF-16 units; the workload keeps non-ASCII to the BMP"],
@@ -80,8 +80,8 @@ pub fn specs() -> Vec<PropertySpec> {
             id: "C20",
             level: "exploration",
             plans: vec![
-                Plan { engine: "e2", variant: "arte", quick: 1_200, thorough: 80_000, asan: false },
-                Plan { engine: "e2", variant: "c13", quick: 400, thorough: 20_000, asan: false },
+                Plan { engine: "e2", variant: "arte", quick: 3_000, thorough: 80_000, asan: false },
+                Plan { engine: "e2", variant: "c13", quick: 1_000, thorough: 20_000, asan: false },
                 Plan { engine: "e1", variant: "l1", quick: 6_000, thorough: 300_000, asan: false },
             ],
             rule: "referential integrity on the simulated file system: schema import specifier of every operation declaration / resolvers file, every sources entry and sourceMappingURL, every #import target (CLI diagnostics and the loader's required-file set) for randomised layouts with outputs above, below and beside inputs and several spellings of each import path",
@@ -92,7 +92,7 @@ pub fn specs() -> Vec<PropertySpec> {
         PropertySpec {
             id: "C14",
             level: "exploration",
-            plans: vec![Plan { engine: "e2", variant: "c14", quick: 1_500, thorough: 100_000, asan: false }],
+            plans: vec![Plan { engine: "e2", variant: "c14", quick: 4_000, thorough: 100_000, asan: false }],
             rule: "seeded projects with options drawn from the product of the export/name options and the three generate modes; the CLI writes the declaration files, the loader is given the same config text and all operation files of the project as concurrent module builds under a seeded schedule; for every operation file the value exports and the default export are compared. distinct = hash of project shape and config text; every case interleaves >= 1 module with config loading, non-trivial = two hash seeds in play",
             assumptions: vec!["tolerant scanner for `export const`, `declare const`, `export { X as default }` (e2.rs scan_exports)", "one nitrogql config per loader instance (documented deployment)"],
             real_components: vec!["nitrogql-cli binary", "loader ABI"],
@@ -102,9 +102,9 @@ pub fn specs() -> Vec<PropertySpec> {
             id: "C13",
             level: "exploration",
             plans: vec![
-                Plan { engine: "e3", variant: "", quick: 60_000, thorough: 4_000_000, asan: false },
-                Plan { engine: "e1", variant: "c13", quick: 12_000, thorough: 600_000, asan: false },
-                Plan { engine: "e2", variant: "c13", quick: 600, thorough: 40_000, asan: false },
+                Plan { engine: "e3", variant: "", quick: 150_000, thorough: 4_000_000, asan: false },
+                Plan { engine: "e1", variant: "c13", quick: 25_000, thorough: 600_000, asan: false },
+                Plan { engine: "e2", variant: "c13", quick: 1_500, thorough: 40_000, asan: false },
             ],
             rule: "seeded import graphs (<=7 files, cycles, diamonds, self imports, several spellings of one path, wildcard/specific/repeated names, dangling files, missing names, resolver misses); a case is distinct by the hash of its resolved edge list + presence flags + root, non-trivial when it has >= 2 import lines",
             assumptions: vec![
@@ -356,6 +356,7 @@ pub fn run_check(ctx: &Ctx, engines: &[Box<dyn Engine>], id: &str) -> i32 {
             "real_components": spec.real_components,
             "stubbed_components": spec.stubbed_components,
             "violation_classes": reported,
+            "miri": std::fs::read_to_string(format!("{}/miri/summary.json", ctx.out_dir)).ok().and_then(|s| serde_json::from_str::<Value>(&s).ok()).filter(|_| id == "C19" && ctx.tier == Tier::Thorough),
             "known_findings_hit": known_hit.keys().collect::<Vec<_>>(),
             "exhaustive": false,
         },
